@@ -653,6 +653,7 @@ PF_FAULTS = {
     'pf:neg-coeff': 'negative-power', 'pf:neg-all': 'negative-power',
     'pf:neg-slope': 'negative-power', 'pf:neg-duct': 'negative-power',
     'pf:neg-cool': 'negative-power', 'pf:neg-interior': 'negative-power',
+    'pf:neg-posslope': 'negative-power',
     'pf:nan-coeff': 'malformed-power', 'pf:inf-coeff': 'malformed-power',
     'pf:text-cell': 'malformed-power', 'pf:empty-cell': 'malformed-power',
     'pf:drop-pin-row': 'malformed-power', 'pf:drop-pin': 'malformed-power',
@@ -669,6 +670,12 @@ PF_FAULTS = {
     'pf:asm-id-unknown': None, 'pf:asm-id-base0': None,
     'pf:zero-all': None, 'pf:huge-coeff': None, 'pf:tiny-coeff': None,
     'pf:missing-file': 'malformed-power',
+    'pf:late-reorder': None,
+    'pf:late-neg-coeff': 'negative-power', 'pf:late-neg-posslope': 'negative-power',
+    'pf:late-drop-pin': 'malformed-power', 'pf:late-extra-pin': 'malformed-power',
+    'pf:late-drop-duct': 'malformed-power', 'pf:late-gap': 'malformed-power',
+    'pf:late-upper-short': 'malformed-power', 'pf:late-upper-long': 'malformed-power',
+    'pf:late-lower-nonzero': 'malformed-power', 'pf:late-pin-index-gap': 'malformed-power',
 }
 
 
@@ -676,6 +683,24 @@ def apply_pf(files, fault):
     name = 'power_0.csv'
     rows = [r.split(',') for r in files[name].strip().split('\n')]
     f = fault[3:]
+    if f.startswith('late-'):
+        # the same fault in the LAST assembly of the file that has the row structure of the first one
+        # (another position of the same assembly type): its block is moved to the front of the file
+        f = f[5:]
+
+        def sig(a):
+            return sorted((r[1], r[2], r[3], r[4]) for r in rows if r[0] == a)
+        ids = []
+        for r in rows:
+            if r[0] not in ids:
+                ids.append(r[0])
+        same = [a for a in ids[1:] if sig(a) == sig(ids[0])]
+        if not same:
+            return False
+        rows = [r for r in rows if r[0] == same[-1]] + [r for r in rows if r[0] != same[-1]]
+        if f == 'reorder':
+            files[name] = '\n'.join(','.join(r) for r in rows) + '\n'
+            return True
     first = rows[0]
     a0 = first[0]
     zs = sorted({float(r[2]) for r in rows} | {float(r[3]) for r in rows})
@@ -701,6 +726,16 @@ def apply_pf(files, fault):
         if len(r) < 7:
             return False
         r[6] = repr(-4.0 * abs(float(r[5])))
+    elif f == 'neg-posslope':
+        # every coefficient non-negative, yet negative at the bottom of the cell:
+        # p(x) = c + 4 c x on [-1/2, 1/2]  ->  -c at x = -1/2
+        r = rows[0]
+        if len(r) < 7:
+            return False
+        c0 = abs(float(r[5]))
+        for rr_ in rows:       # no negative coefficient anywhere in the file
+            rr_[5:] = [repr(abs(float(x))) for x in rr_[5:]]
+        r[5:7] = [repr(c0), repr(4.0 * c0)]
     elif f == 'neg-interior':
         # non-negative at both ends of the cell, negative in its interior:
         # p(x) = -0.5 c + 4 c x^2 on [-1/2, 1/2]  ->  ends +0.5 c, centre -0.5 c
